@@ -2589,6 +2589,98 @@ theorem lim_get_spec (s : Lim) (k : Nat) (victim : Option Nat)
       refine ⟨?_, by simp, trivial, fun k' h => Or.inl (List.mem_cons_of_mem _ h)⟩
       rw [List.length_cons]; omega
 
+/-! ### lock footprint of SetWithCap -/
+
+theorem spillTrace_succ (H : Hashes) (k : Nat) (cap : Int) (si offset : Nat) (m : SegMap V) (f i deficit : Nat) :
+    SegMap.spillTrace H k cap si offset m (f + 1) i deficit =
+      if i < m.segs.size ∧ deficit > 0 then
+        if m.count ≤ cap then [] else
+          ((si + i) % m.segs.size) ::
+            SegMap.spillTrace H k cap si offset (evictSeg H m ((si + i) % m.segs.size) offset deficit k) f (i + 1)
+              (deficit - evictCnt H m ((si + i) % m.segs.size) offset deficit k)
+      else [] := rfl
+
+theorem evictSeg_segAt_ne (H : Hashes) (m : SegMap V) (j j' offset n skip : Nat) (h : j ≠ j') :
+    (evictSeg H m j offset n skip).segAt j' = m.segAt j' := by
+  unfold evictSeg
+  rw [segAt_set, if_neg (by intro h'; exact h h'.1)]
+
+/-- the spill loop changes no segment it did not lock -/
+theorem spill_frame (H : Hashes) (k : Nat) (cap : Int) (si offset : Nat) :
+    ∀ (f : Nat) (m : SegMap V) (i deficit : Nat) (j : Nat),
+      j ∉ SegMap.spillTrace H k cap si offset m f i deficit →
+      (SegMap.spill H k cap si offset m f i deficit).segAt j = m.segAt j := by
+  intro f
+  induction f with
+  | zero => intro m i deficit j _; rfl
+  | succ f ih =>
+    intro m i deficit j hj
+    rw [spill_succ]
+    rw [spillTrace_succ] at hj
+    by_cases hc : i < m.segs.size ∧ deficit > 0
+    · rw [if_pos hc] at hj ⊢
+      by_cases hcap : m.count ≤ cap
+      · rw [if_pos hcap]
+      · rw [if_neg hcap] at hj ⊢
+        rw [List.mem_cons, not_or] at hj
+        rw [ih _ _ _ j hj.2, evictSeg_segAt_ne H m _ j offset deficit k (Ne.symm hj.1)]
+    · rw [if_neg hc]
+
+theorem lockTrace_eq {H : Hashes} (m : SegMap V) (k : Nat) (v : V) (cap : Int)
+    (hsi : SegMap.segOf H m k < m.segs.size) :
+    m.lockTrace H k v cap =
+      if (m.set H k v).count > cap then
+        if 2 - evictCnt H (m.set H k v) (SegMap.segOf H m k) (H.off k) 2 k = 0 then [SegMap.segOf H m k]
+        else
+          SegMap.segOf H m k :: SegMap.spillTrace H k cap (SegMap.segOf H m k) (H.off k)
+            (evictSeg H (m.set H k v) (SegMap.segOf H m k) (H.off k) 2 k)
+            m.segs.size 1 (2 - evictCnt H (m.set H k v) (SegMap.segOf H m k) (H.off k) 2 k)
+      else [SegMap.segOf H m k] := by
+  have hseg : (m.set H k v).segAt (SegMap.segOf H m k) = (m.segAt (SegMap.segOf H m k)).put H.idx k v := by
+    unfold SegMap.set
+    rw [segAt_set, if_pos ⟨rfl, hsi⟩]
+  unfold SegMap.lockTrace evictSeg evictCnt
+  rw [hseg]
+  simp only [SegMap.set, set_set, Array.size_setIfInBounds]
+
+/-- **Lock footprint.** `SetWithCap` changes only segments whose lock it takes
+(`lockTrace`): its own, and the ones its toll walk enters. -/
+theorem setWithCap_frame {H : Hashes} (hH : HashOk H) {m : SegMap V} (inv : SegInv H m)
+    (k : Nat) (v : V) (cap : Int) (j : Nat) (hj : j ∉ m.lockTrace H k v cap) :
+    (m.setWithCap H k v cap).segAt j = m.segAt j := by
+  have hsi := segOf_lt hH inv k
+  rw [lockTrace_eq m k v cap hsi] at hj
+  rw [setWithCap_eq m k v cap hsi]
+  have hset : ∀ j, j ≠ SegMap.segOf H m k → (m.set H k v).segAt j = m.segAt j := by
+    intro j hne
+    unfold SegMap.set
+    rw [segAt_set, if_neg (by intro h; exact hne h.1.symm)]
+  by_cases hover : (m.set H k v).count > cap
+  · rw [if_pos hover] at hj ⊢
+    by_cases hdef : 2 - evictCnt H (m.set H k v) (SegMap.segOf H m k) (H.off k) 2 k = 0
+    · rw [if_pos hdef] at hj ⊢
+      have hne : j ≠ SegMap.segOf H m k := by simpa using hj
+      rw [evictSeg_segAt_ne H _ _ j _ _ _ (Ne.symm hne), hset j hne]
+    · rw [if_neg hdef] at hj ⊢
+      rw [List.mem_cons, not_or] at hj
+      rw [spill_frame H k cap _ _ _ _ _ _ j hj.2, evictSeg_segAt_ne H _ _ j _ _ _ (Ne.symm hj.1), hset j hj.1]
+  · rw [if_neg hover] at hj ⊢
+    have hne : j ≠ SegMap.segOf H m k := by simpa using hj
+    exact hset j hne
+
+/-- when the own segment pays the toll (or the table is not over capacity)
+the writer takes exactly one lock -/
+theorem lockTrace_local {H : Hashes} (hH : HashOk H) {m : SegMap V} (inv : SegInv H m)
+    (k : Nat) (v : V) (cap : Int)
+    (h : (m.set H k v).count ≤ cap ∨ evictCnt H (m.set H k v) (SegMap.segOf H m k) (H.off k) 2 k = 2) :
+    m.lockTrace H k v cap = [SegMap.segOf H m k] := by
+  rw [lockTrace_eq m k v cap (segOf_lt hH inv k)]
+  rcases h with h | h
+  · rw [if_neg (by omega)]
+  · split
+    · rw [if_pos (by omega)]
+    · rfl
+
 /-! ### the real mixers are admissible instances -/
 
 theorem realIdx_ok : IdxOk realIdx := fun n _ hn => Nat.mod_lt _ hn
